@@ -49,7 +49,7 @@ class CPUSpecification:
     """Number of CPU per GPU (0 if not defined)"""
 
     def __lt__(self, other: "CPUSpecification"):
-        return self.memory < other.memory and self.cores < other.cores
+        return self.memory < other.memory or self.cores < other.cores
 
     def total_memory(self, gpus: int = 0):
         return max(
